@@ -430,7 +430,7 @@ func raceSignature(cfg Config, m *ref.Model, all []ref.Tuple, q Req, vals ...map
 	if !uneval || !(strings.Contains(ops, "intersection") || strings.Contains(ops, "exclusion")) {
 		return ""
 	}
-	return "weighted-engine/F-vs-ERR: first-arrival rule of intersection/exclusion with a false and an unevaluable operand (timing shifts with contextual tuples)"
+	return "weighted-engine/F-vs-ERR/first-arrival-rule-of-intersection-or-exclusion"
 }
 
 func shapeOf(a string) string {
